@@ -175,15 +175,18 @@ func (s *Service) Update(ctx context.Context, pipelineID string, cfg Config) (*I
 		return nil, err
 	}
 
-	delete(s.instanceNames, pl.Config.Name) // delete the old name
+	oldCfg, oldUpdatedAt := pl.Config, pl.UpdatedAt
 	pl.Config = cfg
 	pl.UpdatedAt = time.Now()
-	// update the name in the names set
-	s.instanceNames[cfg.Name] = true
 	err = s.store.Set(ctx, pl.ID, pl)
 	if err != nil {
+		// nothing was stored: leave the in-memory instance as it was
+		pl.Config, pl.UpdatedAt = oldCfg, oldUpdatedAt
 		return nil, cerrors.Errorf("failed to save pipeline with ID %q: %w", pl.ID, err)
 	}
+	// the update is stored: now move the name in the names set
+	delete(s.instanceNames, oldCfg.Name)
+	s.instanceNames[cfg.Name] = true
 
 	return pl, err
 }
@@ -208,10 +211,12 @@ func (s *Service) UpdateDLQ(ctx context.Context, pipelineID string, cfg DLQ) (*I
 		return nil, cerrors.New("DLQ window nack threshold must be lower than window size")
 	}
 
+	oldDLQ, oldUpdatedAt := pl.DLQ, pl.UpdatedAt
 	pl.DLQ = cfg
 	pl.UpdatedAt = time.Now()
 	err = s.store.Set(ctx, pl.ID, pl)
 	if err != nil {
+		pl.DLQ, pl.UpdatedAt = oldDLQ, oldUpdatedAt
 		return nil, cerrors.Errorf("failed to save pipeline with ID %q: %w", pl.ID, err)
 	}
 
@@ -224,10 +229,12 @@ func (s *Service) AddConnector(ctx context.Context, pipelineID string, connector
 	if err != nil {
 		return nil, err
 	}
-	pl.ConnectorIDs = append(pl.ConnectorIDs, connectorID)
+	oldIDs, oldUpdatedAt := pl.ConnectorIDs, pl.UpdatedAt
+	pl.ConnectorIDs = append(oldIDs[:len(oldIDs):len(oldIDs)], connectorID)
 	pl.UpdatedAt = time.Now()
 	err = s.store.Set(ctx, pl.ID, pl)
 	if err != nil {
+		pl.ConnectorIDs, pl.UpdatedAt = oldIDs, oldUpdatedAt
 		return nil, cerrors.Errorf("failed to save pipeline with ID %q: %w", pl.ID, err)
 	}
 
@@ -251,11 +258,13 @@ func (s *Service) RemoveConnector(ctx context.Context, pipelineID string, connec
 		return nil, cerrors.Errorf("%w (ID: %s)", ErrConnectorIDNotFound, connectorID)
 	}
 
-	pl.ConnectorIDs = pl.ConnectorIDs[:connectorIndex+copy(pl.ConnectorIDs[connectorIndex:], pl.ConnectorIDs[connectorIndex+1:])]
+	oldIDs, oldUpdatedAt := pl.ConnectorIDs, pl.UpdatedAt
+	pl.ConnectorIDs = append(append(make([]string, 0, len(oldIDs)), oldIDs[:connectorIndex]...), oldIDs[connectorIndex+1:]...)
 	pl.UpdatedAt = time.Now()
 
 	err = s.store.Set(ctx, pl.ID, pl)
 	if err != nil {
+		pl.ConnectorIDs, pl.UpdatedAt = oldIDs, oldUpdatedAt
 		return nil, cerrors.Errorf("failed to save pipeline with ID %q: %w", pl.ID, err)
 	}
 
@@ -268,10 +277,12 @@ func (s *Service) AddProcessor(ctx context.Context, pipelineID string, processor
 	if err != nil {
 		return nil, err
 	}
-	pl.ProcessorIDs = append(pl.ProcessorIDs, processorID)
+	oldIDs, oldUpdatedAt := pl.ProcessorIDs, pl.UpdatedAt
+	pl.ProcessorIDs = append(oldIDs[:len(oldIDs):len(oldIDs)], processorID)
 	pl.UpdatedAt = time.Now()
 	err = s.store.Set(ctx, pl.ID, pl)
 	if err != nil {
+		pl.ProcessorIDs, pl.UpdatedAt = oldIDs, oldUpdatedAt
 		return nil, cerrors.Errorf("failed to save pipeline with ID %q: %w", pl.ID, err)
 	}
 
@@ -295,11 +306,13 @@ func (s *Service) RemoveProcessor(ctx context.Context, pipelineID string, proces
 		return nil, cerrors.Errorf("%w (ID: %s)", ErrProcessorIDNotFound, processorID)
 	}
 
-	pl.ProcessorIDs = pl.ProcessorIDs[:processorIndex+copy(pl.ProcessorIDs[processorIndex:], pl.ProcessorIDs[processorIndex+1:])]
+	oldIDs, oldUpdatedAt := pl.ProcessorIDs, pl.UpdatedAt
+	pl.ProcessorIDs = append(append(make([]string, 0, len(oldIDs)), oldIDs[:processorIndex]...), oldIDs[processorIndex+1:]...)
 	pl.UpdatedAt = time.Now()
 
 	err = s.store.Set(ctx, pl.ID, pl)
 	if err != nil {
+		pl.ProcessorIDs, pl.UpdatedAt = oldIDs, oldUpdatedAt
 		return nil, cerrors.Errorf("failed to save pipeline with ID %q: %w", pl.ID, err)
 	}
 
